@@ -37,30 +37,47 @@ class Unsupported(Exception):
 # =====================================================================================
 
 
-def _props(ch: str) -> tuple:
-    return (ch.isalpha(), ch.isdecimal(), ch.isdigit(), ch.isalnum(), ch.isspace())
+ALL_PREDS = ("isalpha", "isdecimal", "isdigit", "isalnum", "isspace")
 
 
-_UNI: dict | None = None
+def _props(ch: str, preds: tuple) -> tuple:
+    return tuple(getattr(ch, p)() for p in preds)
 
 
-def _unicode_groups() -> dict:
+_UNI: dict = {}
+
+
+def _unicode_groups(preds: tuple) -> dict:
     """Non-ASCII code points grouped by (predicates, image under str.lower()); one pass over all of
-    Unicode with CPython's own tables, cached per process (~0.4 s)."""
-    global _UNI
-    if _UNI is None:
+    Unicode with CPython's own tables (all five predicates), cached per process (~0.5 s); coarser
+    predicate sets are obtained by projecting the full grouping."""
+    if ALL_PREDS not in _UNI:
         groups: dict = {}
+        fs = [getattr(str, p) for p in ALL_PREDS]
         for c in range(128, sys.maxunicode + 1):
             ch = chr(c)
             lo = ch.lower()
+            pr = (ch.isalpha(), ch.isdecimal(), ch.isdigit(), ch.isalnum(), ch.isspace())
             if lo == ch:
-                key = (_props(ch), None)
+                key = (pr, None)
             else:
-                key = (_props(ch), tuple((x if x < "\x80" else None, _props(x)) for x in lo))
+                key = (pr, tuple([(x if x < "\x80" else None, tuple([f(x) for f in fs])) for x in lo]))
             if key not in groups:
                 groups[key] = ch
-        _UNI = groups
-    return _UNI
+        _UNI[ALL_PREDS] = groups
+    if preds not in _UNI:
+        idx = [ALL_PREDS.index(p) for p in preds]
+
+        def proj(pr: tuple) -> tuple:
+            return tuple(pr[i] for i in idx)
+
+        out: dict = {}
+        for (pr, low), rep in _UNI[ALL_PREDS].items():
+            key = (proj(pr), None if low is None else tuple((x, proj(q)) for x, q in low))
+            # a character whose lower image is indistinguishable from itself is not special
+            out.setdefault(key, rep)
+        _UNI[preds] = out
+    return _UNI[preds]
 
 
 class Atom:
@@ -68,14 +85,16 @@ class Atom:
 
     def __init__(self, idx: int, rep: str, members: frozenset | None, desc: str):
         self.idx, self.rep, self.members, self.desc = idx, rep, members, desc
-        self.props = _props(rep)
+        self.props = None
 
 
 class Alphabet:
     """Partition of all Unicode characters into atoms that refine every registered character set,
     the str predicates isalpha/isdecimal/isdigit/isalnum/isspace, '_' and the image under lower()."""
 
-    def __init__(self, singles: Iterable[str] = (), sets: Iterable[Iterable[str]] = ()):
+    def __init__(self, singles: Iterable[str] = (), sets: Iterable[Iterable[str]] = (), preds: Iterable[str] = ALL_PREDS):
+        self.preds = tuple(p for p in ALL_PREDS if p in set(preds))
+        P = self.preds
         ssets = [frozenset(s) for s in sets] + [frozenset(c) for c in set(singles)] + [frozenset("\n"), frozenset("_")]
         ssets = sorted(set(ssets), key=lambda s: sorted(s))
         for s in ssets:
@@ -91,8 +110,8 @@ class Alphabet:
         for c in range(128):
             ch = chr(c)
             lo = ch.lower()
-            lowsig = None if lo == ch else tuple((memb(x), _props(x)) for x in lo)
-            groups.setdefault((memb(ch), _props(ch), lowsig), []).append(ch)
+            lowsig = None if lo == ch else tuple((memb(x), _props(x, P)) for x in lo)
+            groups.setdefault((memb(ch), _props(ch, P), lowsig), []).append(ch)
         self.atoms: list[Atom] = []
         self._ascii: dict[str, int] = {}
         for sig, chars in sorted(groups.items(), key=lambda kv: kv[1][0]):
@@ -101,7 +120,7 @@ class Alphabet:
             for ch in chars:
                 self._ascii[ch] = a.idx
         self._uni: dict = {}
-        for key, rep in _unicode_groups().items():
+        for key, rep in _unicode_groups(P).items():
             a = Atom(len(self.atoms), rep, None, f"U+{ord(rep):04X}-like")
             self.atoms.append(a)
             self._uni[key] = a.idx
@@ -110,9 +129,10 @@ class Alphabet:
 
     def _key(self, ch: str) -> tuple:
         lo = ch.lower()
+        P = self.preds
         if lo == ch:
-            return (_props(ch), None)
-        return (_props(ch), tuple((x if x < "\x80" else None, _props(x)) for x in lo))
+            return (_props(ch, P), None)
+        return (_props(ch, P), tuple((x if x < "\x80" else None, _props(x, P)) for x in lo))
 
     def atom_of(self, ch: str) -> int:
         if ch < "\x80":
@@ -128,8 +148,15 @@ class Alphabet:
     def lower_image(self, idx: int) -> tuple:
         return self._lower[idx]
 
-    def select(self, pred: Callable[[str], bool]) -> frozenset:
-        return frozenset(a.idx for a in self.atoms if pred(a.rep))
+    def select(self, pred: str) -> frozenset:
+        """Atoms satisfying a str predicate the alphabet was built to distinguish."""
+        if pred == "isword":
+            return self.select("isalnum") | frozenset(self.word("_"))
+        if pred == "isascii":
+            return frozenset(a.idx for a in self.atoms if a.members is not None)
+        if pred not in self.preds:
+            raise Unsupported(f"alphabet was not refined for str.{pred}")
+        return frozenset(a.idx for a in self.atoms if getattr(a.rep, pred)())
 
     def of_chars(self, chars: Iterable[str]) -> frozenset:
         chars = frozenset(chars)
@@ -774,13 +801,11 @@ def fst_charat(A: Alphabet, k: int) -> FST:
 # =====================================================================================
 
 _CATS = {
-    "CATEGORY_DIGIT": lambda ch: ch.isdecimal(),
-    "CATEGORY_NOT_DIGIT": lambda ch: not ch.isdecimal(),
-    "CATEGORY_WORD": lambda ch: ch.isalnum() or ch == "_",
-    "CATEGORY_NOT_WORD": lambda ch: not (ch.isalnum() or ch == "_"),
-    "CATEGORY_SPACE": lambda ch: ch.isspace(),
-    "CATEGORY_NOT_SPACE": lambda ch: not ch.isspace(),
+    "CATEGORY_DIGIT": ("isdecimal", False), "CATEGORY_NOT_DIGIT": ("isdecimal", True),
+    "CATEGORY_WORD": ("isword", False), "CATEGORY_NOT_WORD": ("isword", True),
+    "CATEGORY_SPACE": ("isspace", False), "CATEGORY_NOT_SPACE": ("isspace", True),
 }
+_CAT_PRED = {"isword": "isalnum"}
 
 
 def regex_parse(pattern: str):
@@ -789,6 +814,15 @@ def regex_parse(pattern: str):
     if extra:
         raise Unsupported(f"regex flags {extra} in {pattern!r}")
     return p
+
+
+def regex_preds(pattern: str) -> set:
+    """str predicates the alphabet must distinguish to decide the pattern's categories."""
+    out: set = set()
+    for cat, (p, _neg) in _CATS.items():
+        if cat in repr(regex_parse(pattern).data):
+            out.add(_CAT_PRED.get(p, p))
+    return out
 
 
 def regex_charsets(pattern: str) -> tuple[set, list]:
@@ -847,7 +881,8 @@ def class_atoms(A: Alphabet, op, av) -> frozenset | None:
                 f = _CATS.get(str(a2))
                 if f is None:
                     raise Unsupported(f"regex category {a2}")
-                acc |= A.select(f)
+                sel = A.select(f[0])
+                acc |= (A.all_atoms - sel) if f[1] else sel
             else:
                 raise Unsupported(f"regex class item {n2}")
         return frozenset(A.all_atoms - acc) if neg else frozenset(acc)
@@ -1051,8 +1086,8 @@ class Flow:
 
 _CMP_FLIP = {ast.Lt: ast.Gt, ast.Gt: ast.Lt, ast.LtE: ast.GtE, ast.GtE: ast.LtE, ast.Eq: ast.Eq, ast.NotEq: ast.NotEq}
 _STR_PREDS = {
-    "isalpha": str.isalpha, "isdigit": str.isdigit, "isalnum": str.isalnum, "isdecimal": str.isdecimal,
-    "isspace": str.isspace, "isascii": str.isascii, "islower": None, "isupper": None,
+    "isalpha": "isalpha", "isdigit": "isdigit", "isalnum": "isalnum", "isdecimal": "isdecimal",
+    "isspace": "isspace", "isascii": "isascii", "islower": None, "isupper": None,
 }
 
 
@@ -1694,7 +1729,7 @@ class SInterp:
                             raise Unsupported("strip() with a non-constant argument")
                         C = self.chars_of(c)
                     elif not e.args:
-                        C = A.select(str.isspace)
+                        C = A.select("isspace")
                     else:
                         raise Unsupported("strip() arguments")
                     return recv, fst_strip(A, C, "all" if m in ("strip", "lstrip") else None, "all" if m in ("strip", "rstrip") else None), None
@@ -2209,6 +2244,23 @@ def module_consts(m) -> dict[str, ast.AST]:
     return out
 
 
+def collect_preds(nodes: Iterable[ast.AST]) -> set:
+    """str predicates consulted by the analysed code (method names, bare strip(), regex categories)."""
+    out: set = set()
+    for root in nodes:
+        for n in ast.walk(root):
+            if isinstance(n, ast.Attribute) and _STR_PREDS.get(n.attr) in ALL_PREDS:
+                out.add(n.attr)
+            if isinstance(n, ast.Call) and isinstance(n.func, ast.Attribute) and n.func.attr in ("strip", "lstrip", "rstrip", "split") and not n.args:
+                out.add("isspace")
+            if isinstance(n, ast.Call) and (_dotted(n.func) or "").startswith("re.") and n.args and isinstance(n.args[0], ast.Constant) and isinstance(n.args[0].value, str):
+                try:
+                    out |= regex_preds(n.args[0].value)
+                except Exception:
+                    pass
+    return out
+
+
 def collect_literals(nodes: Iterable[ast.AST]) -> tuple[set, list]:
     """Characters / character sets mentioned by string constants and regex patterns in the given ASTs:
     strings of up to 3 characters contribute singletons, longer ones a set; every constant that parses
@@ -2232,6 +2284,8 @@ def collect_literals(nodes: Iterable[ast.AST]) -> tuple[set, list]:
                     s1, s2 = regex_charsets(n.args[0].value)
                     singles |= s1
                     sets += s2
+                    skip.add(id(n.args[0]))
+                    continue
             if isinstance(n, ast.Constant) and isinstance(n.value, str) and n.value.isascii():
                 if len(n.value) <= 3:
                     singles |= set(n.value)
@@ -2280,12 +2334,12 @@ def _const_regex(consts: dict[str, ast.AST], name: str) -> str:
     raise AnchorError(f"`{name}` is not a module-level re.compile(<constant pattern>)")
 
 
-def _reachable_functions(functions: dict[str, ast.AST], entry: str) -> dict[str, ast.AST]:
+def _reachable_functions(functions: dict[str, ast.AST], entry: str, stop: Iterable[str] = ()) -> dict[str, ast.AST]:
     out: dict[str, ast.AST] = {}
     todo = [entry]
     while todo:
         n = todo.pop()
-        if n in out or n not in functions:
+        if n in out or n not in functions or n in stop:
             continue
         out[n] = functions[n]
         for c in ast.walk(functions[n]):
@@ -2301,7 +2355,7 @@ class _Analysis:
         if ENTRY not in functions:
             raise AnchorError(f"function `{ENTRY}` not found")
         self.entry = functions[ENTRY]
-        reach = _reachable_functions(functions, ENTRY)
+        reach = _reachable_functions(functions, ENTRY, stop=(ORACLE,))
         self.inline = {k: v for k, v in reach.items() if k not in (ENTRY, ORACLE)}
         if not any(isinstance(c, ast.Call) and _dotted(c.func) == ORACLE for c in ast.walk(self.entry)):
             raise AnchorError(f"`{ENTRY}` no longer consults `{ORACLE}`")
@@ -2309,7 +2363,8 @@ class _Analysis:
         s1, s2 = regex_charsets(dns_pattern)
         lower, digits = set("abcdefghijklmnopqrstuvwxyz"), set("0123456789")
         try:
-            self.A = Alphabet(singles | s1, sets + s2 + [lower, digits])
+            preds = collect_preds([self.entry] + list(self.inline.values())) | regex_preds(dns_pattern)
+            self.A = Alphabet(singles | s1, sets + s2 + [lower, digits], preds)
             self.K = self.A.K
             self.dns = regex_match_lang(self.A, dns_pattern, strict_end=True) & L_length(self.K, 0, MAXLEN)
         except Unsupported as e:
@@ -2394,8 +2449,9 @@ def _astrs(vals: list, what: str) -> list[AStr]:
     return out
 
 
-def _evaluate(an: _Analysis):
-    """Yield (rule, instance, description, ok, node, reason) for one module."""
+def _evaluate(an: _Analysis, brief: bool = False):
+    """Yield (rule, instance, description, ok, node, reason) for one module (brief: R1 returns and
+    R2 with k=2 only — enough to see the planted defects of the fixture)."""
     K = an.K
     # ---------------- R1
     r = an.run(L_all(K))
@@ -2419,13 +2475,15 @@ def _evaluate(an: _Analysis):
     yield ("floor", "subscripts", "", True, None, len(idx))
     yield ("floor", "oracle", "", True, None, r["oracle_calls"])
     # ---------------- R2a
-    for k in (0, 1, 2):
+    for k in ((2,) if brief else (0, 1, 2)):
         rk = an.run(an.names_with(k, k))
         vals = [v for _n, vs in rk["returns"].values() for v in vs]
         plain = L_union(K, [v.plain for v in _astrs(vals, "a returned value")])
         w = plain.shortest()
         yield ("C32.R2", f"alnum={k}", f"a name with {k} alphanumeric(s) never yields an id without a random part", w is None, an.entry,
                "" if w is None else f"id {an.show(w)} is returned with no random part for some name with {k} alphanumeric character(s)")
+    if brief:
+        return
     # ---------------- R2b
     rb = an.run(an.names_with(3, None), force=False) if an.flag_param else an.run(an.names_with(3, None))
     first = _astrs(rb["first"], "a first candidate")
@@ -2476,7 +2534,7 @@ def run(chk) -> None:
     ftop = {n.name: n for n in tree.body if isinstance(n, FuncNode)}
     fcon = {n.targets[0].id: n.value for n in tree.body if isinstance(n, ast.Assign) and isinstance(n.targets[0], ast.Name)}
     fan = _Analysis(ftop, fcon, dns)
-    res = [(rule, inst, ok) for rule, inst, _d, ok, _n, _r in _evaluate(fan) if rule != "floor"]
+    res = [(rule, inst, ok) for rule, inst, _d, ok, _n, _r in _evaluate(fan, brief=True) if rule != "floor"]
     chk.floor("C32.R1", "planted invalid-label returns reported in the fixture", sum(1 for r_, i, ok in res if r_ == "C32.R1" and i == "return" and not ok), 1)
     chk.floor("C32.R2", "planted unsuffixed short ids reported in the fixture", sum(1 for r_, i, ok in res if r_ == "C32.R2" and i.startswith("alnum=") and not ok), 1)
     chk.observe("uniqueness against the cluster is not analysed: validate_deployment_id is treated as an oracle that may answer anything; after 99 collisions the function raises ValueError")
